@@ -9,21 +9,21 @@ checks = {
  "C03": ("E1", "qos2out: exactly-once publishes with window 2, faults at every stage of the four-packet handshake, crashes; monitors: no PUBLISH n between Save(PUBREL n) and the processed PUBCOMP n, PUBREL on every accepted connection in between, forwarded exactly once.", "§3 C03", E1),
  "C04": ("E1", "qos2in: inbound QoS 2 stream with identifier reuse and a message beyond the read buffer; broker retransmissions and PUBREL repeats on the same connection, cuts, lost acknowledgements, failing marker Save/Load/Delete, crashes.", "§3 C04", E1),
  "C05": ("E1", "puborder: three goroutines publishing on both levels while connections break and connects fail; wire order == acceptance order per level, ascending per connection, PUBREL order, DUP discipline, exchange close order.", "§3 C05", E1),
- "C06": ("E1", "inbound32/64: scripted stream of every PUBLISH shape around the (shrunk) read buffer size; every cut of the stream into reads with ≤ 2 cut points, each optionally followed by a pause that outlasts the deadline; BigMessage read or skipped.", "§3 C06", E1),
+ "C06": ("E1", "inbound32/64: scripted stream of every PUBLISH shape around the (shrunk) read buffer size; every cut of the stream into reads with ≤ 2 cut points, each optionally followed by a pause that outlasts the deadline; BigMessage read or skipped; broker retransmissions of any unacknowledged message; inboundctl with control packets in between and a failing marker Save.", "§3 C06", E1),
  "C07": ("E1", "acktiming: inbound QoS 0/1/2 and a BigMessage with the application holding every return; concurrent Publish/Ping/Subscribe; the acknowledgement's own write failing.", "§3 C07", E1),
- "C08": ("E1", "writers: Publish (vectored), PublishRetained (empty payload), Subscribe, Ping, PublishAtLeastOnce and the read routine's PUBACK, with every accepted byte count of every Write followed by timeout or error; wire monitor (independent decoder) on every connection.", "§3 C08", E1),
+ "C08": ("E1", "writers: Publish (vectored), PublishRetained (empty payload), Subscribe, Ping, PublishAtLeastOnce and the read routine's PUBACK, with every accepted byte count of every Write followed by timeout or error; wire monitor (independent decoder) on every connection; denied requests (also a 256 MiB publish) in front; writers2: vectored Publish racing the retransmission; plus the free-running -race body race-client.", "§3 C08", E1),
  "C09": ("E3", "all ten request methods x every byte string of length ≤ 3 over a 17-byte UTF-8 alphabet + 4-byte lead/continuation strings + boundary lengths; remaining-length boundaries; Config product (user, password, will, keep-alive, clean session) through CONNECT composition; decoded by the reference codec.", "§3 C09", E3),
  "C10": ("E1", "wedge: inbound QoS 1/2 (the read routine owes acknowledgements) with Publish/Ping/Subscribe/persisted publishes failing at every placement; progress monitor at quiescence: reader on a live connection, online, every request released.", "§3 C10", E1),
  "C11": ("E1", "reqresp: Subscribe (two filters, one refused), Subscribe, Unsubscribe, two Pings from four goroutines, quit at any moment, cuts and failing writes; per-call monitor: own response, error cause, every call returns.", "§3 C11", E1),
  "C12": ("E1", "shutdown1/2: Close / Disconnect (+Close) started at every quiescent state of a run with Subscribe, Ping, persisted and plain publishes in flight, blocked dial and withheld CONNACK; monitors: every call returns, signals, ErrClosed afterwards (probes), exchanges get ErrClosed, connections closed, no goroutine left.", "§3 C12", E1),
- "C13": ("E1", "hostile: client staged with transfers at every stage (muted broker), then one byte string from a grammar-exhaustive domain (type x flags x lengths in minimal/padded/5-byte encodings x identifiers in/out of space and order x return codes x truncations, PUBLISH shapes, acknowledgement pairs); reference classifier says reject ⇒ error + fresh connection; no forged progress; mid-packet reads have a deadline.", "§3 C13", E1),
+ "C13": ("E1", "hostile: client staged with transfers at every stage (muted broker), then one byte string from a grammar-exhaustive domain (type x flags x lengths in minimal/padded/5-byte encodings x identifiers in/out of space and order x return codes x truncations, PUBLISH shapes, acknowledgement pairs); reference classifier says reject ⇒ error + fresh connection; no forged progress; mid-packet reads have a deadline. hostilepart / hostileany inject the strings in any phase, with state-independent verdicts only.", "§3 C13", E1),
  "C14": ("E1", "errclass/reqresp/hostile scenarios with the per-call class monitor (documented classes per method, 'not submitted' ⇒ no byte written, quit ⇒ ErrCanceled/ErrAbandoned) plus exhaustive error trees (wrap, custom Is, errors.Join, custom multi-unwrap; depth ≤ 2/3) for IsDeny/IsEnd/Backoff.", "§3 C14", E1),
  "C15": ("E3", "every packet length 0..120 (300 thorough) x five sequence numbers through the real record codec against the documented layout; every single-byte alteration (255 values) and every truncation of stored values, including records of a real session; damaged records through AdoptSession and connect.", "§3 C15", E3),
- "C16": ("E1", "damage1/2: crash at every quiescent state with every single (thorough: pair) damage of the snapshot — byte flips in packet/sequence/checksum, truncations, removal, stray entries — then AdoptSession, new publishes and inbound QoS 1/2 traffic against the reference broker.", "§3 C16", E1),
- "C17": ("E1", "window*: limits 2/1, 1/0, 3/negative, counters preset next to the 14-bit wrap (0x3ffe, 0x3fff, 0x7ffe), concurrent publishers, cuts, refused connects, failing Save, crash; monitors: in flight ≤ limit, ErrMax only when full, identifiers distinct/non-zero/in space.", "§3 C17", E1),
+ "C16": ("E1", "damage1/2: crash at every quiescent state with every single (thorough: pair) damage of the snapshot — byte flips in packet/sequence/checksum, truncations, removal, stray entries — then AdoptSession, new publishes and inbound QoS 1/2 traffic against the reference broker; damagebulk (six records, pair damages), damagerel/damagerel2 (PUBRELs before PUBLISHes; a second, undamaged stop), damagefs (leftovers of interrupted FileSystem Saves).", "§3 C16", E1),
+ "C17": ("E1", "window*: limits 2/1, 1/0, 3/negative, counters preset next to the 14-bit wrap (0x3ffe, 0x3fff, 0x7ffe), concurrent publishers, cuts, refused connects, failing Save, crash; monitors: in flight ≤ limit, ErrMax only when full, identifiers distinct/non-zero/in space; long runs across the 14-bit and 13-bit wraps (c17-longrun, c11-idwrap), 513 requests against 512 slots.", "§3 C17", E1),
  "C18": ("E1", "connect/connectclean: will+user+password Config, pending transfers, CONNECT failing at every byte, CONNACK cut at every byte with pauses, every flag byte x return codes {0,1,5,6,255} and every return code x flags {0,1} plus malformed replies (thorough: all 65 536), dial errors/blocks; requests of every type racing the attempt.", "§3 C18", E1),
- "C19": ("E3", "FileSystem store over an in-memory file system substituted for its os calls: histories of Save/Delete x a process stop at entry and exit of every primitive operation and inside each data write at every byte count, error injection at every primitive; plus two three-goroutine scenarios of Save/Load/Delete/List under the scheduler at primitive granularity with a brute-force linearizability check.", "§3 C19", E3),
- "C20": ("E3", "mqtttest mocks: all expectation lists (≤ 2) x call sequences (≤ 2, thorough 3) over 3 messages x 2 topics x quit {nil, open, closed}; filter-set sequences for both subscribe mocks; stubs; every exchange script of length ≤ 3 over {error, ErrClosed-wrapping, Block{0}, Block{1ms}}.", "§3 C20", E3),
+ "C19": ("E3", "FileSystem store over an in-memory file system substituted for its os calls: histories of Save/Delete x a process stop at entry and exit of every primitive operation and inside each data write at every byte count, error injection at every primitive; plus two three-goroutine scenarios of Save/Load/Delete/List under the scheduler at primitive granularity with a brute-force linearizability check, on keys that differ in one bit (all 17 bits); the shim is bound to the kernel by an strace comparison (c19-kernel); plus the free-running -race body race-fs.", "§3 C19", E3),
+ "C20": ("E3", "mqtttest mocks: all expectation lists (≤ 2) x call sequences (≤ 2, thorough 3) over 3 messages x 2 topics x quit {nil, open, closed}; filter-set sequences for both subscribe mocks; stubs; every exchange script of length ≤ 3 over {error, ErrClosed-wrapping, Block{0}, Block{1ms}}; plus the free-running -race body race-doubles (every double from three goroutines at once).", "§3 C20", E3),
 }
 notes = {
  "C13": "all byte strings is not enumerable: the domain is grammar-structured (see DESIGN §6); allocation bounds are not measured",
@@ -43,6 +43,7 @@ m = {
  "engines": [
   {"name": "E1", "path": "mc/", "serves_properties": [k for k, v in checks.items() if v[0] == "E1"], "kind_free_text": E1},
   {"name": "E3", "path": "mc/e3_*_test.go", "serves_properties": [k for k, v in checks.items() if v[0] == "E3"], "kind_free_text": E3},
+  {"name": "race-pass", "path": "mc/race_test.go", "serves_properties": ["C08", "C19", "C20"], "kind_free_text": "supplement prescribed for cooperative schedulers: the same kinds of concurrent use on real goroutines without the scheduler in a -race build; reports of the race detector become violations; not exhaustive and marked so in the evidence"},
   {"name": "instrumenter", "path": "instrument/", "serves_properties": sorted(checks), "kind_free_text": "go/parser based rewriter producing the build overlay (gates, goroutine identity, deterministic select, os shim)"},
  ],
  "checks": [],
